@@ -185,7 +185,7 @@ def make_run_one(num_slots, lookups, n_opts=3, reduce=True):
             now_ns = int(round(now * 10**9))
             c = internals()
             exp = getattr(cache, '_expiry_time', {})
-            return (tuple(ph), tuple(results), tuple(t.done() for t in tasks.values()), tuple(sorted(st['kinds'].items())),
+            return (tuple(ph), tuple(results), tuple(vloopx.pc(t) for t in tasks.values()), tuple(sorted(st['kinds'].items())),
                     tuple((ld['key'], ld['opt'], ld['stage'], alive(ld), None if ld['done_t'] is None else now - ld['done_t'])
                           for ld in loads),
                     tuple(sorted((k, v, exp.get(k, 0) - now_ns) for k, v in c.items())),
